@@ -135,7 +135,7 @@ META = {
         level="For ported example parsers and generated parsers (default, stateful, mapped lexers) and valid/invalid inputs: Parse(reader) incl. one-byte "
               "and multi-part readers, ParseString, ParseBytes, ParseFromLexer over the parser's own stream must give deeply equal ASTs and identical "
               "error texts (also with AllowTrailing, and with a reader that has a Name()); Parser.Lex must equal the drained definition; Lex/LexString/LexBytes must agree, also "
-              "with several lexers of one definition (the parser's, generated multi-state rule sets) alive and drained in turns; Trace must not change the result; with "
+              "with several lexers of one definition (the parser's, generated multi-state rule sets, text/scanner definitions with a configuration of the caller's) alive and drained in turns; Trace must not change the result; with "
               "AllowTrailing the caller's lexer must end at the first token the reference parser did not consume (fixtures: the consumed prefix must parse alone to the same AST). Exploration. Generated lexers' entry "
               "points are compared in the C05 compile stage.",
         note=GRAM_NOTE),
